@@ -410,6 +410,34 @@ def whole_disc(ctx):
             judge(ctx, g, cfgt, u, np.ones(u.shape[1], bool), rng)
 
 
+def u_dtypes(ctx):
+    """The same random numbers (exactly representable) as single / half precision arrays: every reported
+    quantity equals what the float64 array gives. The configuration is built from plain Python numbers
+    (what a TOML file gives), so no numpy scalar in it lifts the arithmetic."""
+    from nuspacesim.simulation.geometry.region_geometry import RegionGeom
+
+    rng = ctx.subrng("c02-dtype")
+    for cfgt in ((525.0, 0.3, 1.0, None, math.radians(3.0), 2 * math.pi), (33.0, -0.7, 4.0, 0.5, math.radians(20.0), math.radians(90.0))):
+        for dt in (np.float16, np.float32):
+            u = rng.uniform(0.02, 0.98, (4, 400)).astype(dt)
+            try:
+                g1, g2 = RegionGeom(make_cfg(*cfgt)), RegionGeom(make_cfg(*cfgt))
+                g1.throw(u.copy())
+                g2.throw(u.astype(np.float64))
+            except Exception as e:
+                ctx.exception("raises", f"throw(u) with a {np.dtype(dt).name} array raised", e, {"cfg": cfgt})
+                continue
+            ctx.count("u-dtype", u.shape[1])
+            for a in ("losPathLen", "latS", "longS", "betaTrSubN", "thetaTrSubV"):
+                x, y = np.asarray(getattr(g1, a), dtype=np.float64), np.asarray(getattr(g2, a), dtype=np.float64)
+                if not (x.shape == y.shape and np.all(np.abs(x - y) <= 1e-9 * (1 + np.abs(y)))):
+                    i = int(np.argmax(np.abs(x - y))) if x.shape == y.shape else 0
+                    ctx.violation("u-dtype", f"altitude {cfgt[0]} km: throw(u) with a {np.dtype(dt).name} array gives {a}[{i}] = {x[i]!r}; the same numbers as float64 give {y[i]!r} (u = {u[:, i].astype(np.float64).tolist()})", {"cfg": cfgt, "dtype": np.dtype(dt).name, "attribute": a})
+                    break
+            if not np.array_equal(np.asarray(g1.event_mask), np.asarray(g2.event_mask)):
+                ctx.violation("u-dtype", f"altitude {cfgt[0]} km: throw(u) with a {np.dtype(dt).name} array keeps different events than the same numbers as float64", {"cfg": cfgt, "dtype": np.dtype(dt).name})
+
+
 def side_by_side(ctx, si, payload):
     """Several geometry objects alive at once (built first, thrown afterwards, as a side-by-side
     comparison of detector altitudes or limb angles does): each gives, bit for bit, what an object
@@ -471,8 +499,9 @@ def run(ctx):
     core.run_shards(ctx, "nssmon.checks.c02", "shard", payloads, workers=nsh)
     special_points(ctx)
     whole_disc(ctx)
+    u_dtypes(ctx)
     core.run_shards(ctx, "nssmon.checks.c02", "side_by_side", [{"cfgs": cfgs[i::4]} for i in range(4)], workers=4)
-    for m in ("range", "inverse-cdf", "inverse-cdf-decimal", "monotone", "spot", "emergence", "mask", "along", "along-after-rethrow", "history", "side-by-side", "special-points", "call", "plots"):
+    for m in ("range", "inverse-cdf", "inverse-cdf-decimal", "monotone", "spot", "emergence", "mask", "along", "along-after-rethrow", "history", "side-by-side", "special-points", "whole-disc", "u-dtype", "call", "plots"):
         ctx.require(m)
     if ctx.obs.get("kept_events_seen", 0) < 1000:
         ctx.inconclusive_because("fewer than 1000 kept events were observed")
